@@ -14,6 +14,7 @@ import (
 	"reflect"
 	"strings"
 	"testing"
+	"time"
 
 	"github.com/Cloud-Foundations/golib/pkg/log/testlogger"
 	"github.com/Cloud-Foundations/keymaster/lib/instrumentedwriter"
@@ -101,6 +102,9 @@ func vfServe(h http.HandlerFunc, req *http.Request) (rr *httptest.ResponseRecord
 
 // vfNewState builds a RuntimeState with the test signer, a sqlite DB in a temp dir,
 // the htpasswd password backend of the repo's own tests and loaded templates.
+// vfPrimaryAnswersInTime: remoteDBQueryTimeout of a harness state whose primary database is up (see vfNewState).
+const vfPrimaryAnswersInTime = 10 * time.Minute
+
 func vfNewState(t *testing.T) (*RuntimeState, func()) {
 	tmpdir, err := ioutil.TempDir("", "vfkm")
 	if err != nil {
@@ -147,6 +151,11 @@ func vfNewState(t *testing.T) (*RuntimeState, func()) {
 		t.Fatal(err)
 	}
 	state.logger = tlog
+	// initDB's default: a primary database that has not answered after 2 s counts as unreachable and the local
+	// copy is consulted. Every model here takes "the primary answers in time" as given unless an op says otherwise
+	// (the harnesses that study the outage set the field themselves, as the repository's own storage_test.go does);
+	// on a loaded machine a 2 s stall of the sqlite goroutine is possible and would silently serve a stale profile.
+	state.remoteDBQueryTimeout = vfPrimaryAnswersInTime
 	if err := state.loadTemplates(); err != nil {
 		t.Fatal(err)
 	}
